@@ -84,6 +84,18 @@ impl BandTracker {
 /// short) - what the final close pays on top of (minus) the quote it exchanges - a reduction that exchanged Q quote
 /// and charged funding F moves the book value by +Q - F (long) or -Q - F (short). Returns (book value after,
 /// expected) or None when the margin was clamped at zero (equity could not cover what was owed).
+/// pro-rata remaining open notional of a reduction: position value - exchanged quote - unrealized PnL that stays open
+/// (mirrored for shorts); negative when the trade fetched (cost) more than the closed share of the position's value
+/// plus the whole remaining cost basis
+fn pro_rata_remainder(view: &PosView, spot_notional: u128, quote: u128, realized_pro_rata: &Big) -> Big {
+    let upnl_after = view.pnl_for(spot_notional).sub(*realized_pro_rata);
+    if view.pos.long_dir {
+        Big::u(spot_notional).sub(Big::u(quote)).sub(upnl_after)
+    } else {
+        upnl_after.add(Big::u(spot_notional)).sub(Big::u(quote))
+    }
+}
+
 fn book_value_identity(view: &PosView, post: &Pos, quote: u128, f: &Big, m0: &Big, realized_pro_rata: &Big) -> Option<(Big, Big)> {
     if m0.clone().add(realized_pro_rata.clone()).sub(f.clone()).is_neg() || post.margin == 0 {
         return None;
@@ -492,6 +504,9 @@ impl Monitor for C11 {
                             if let (Some(p), Some(sn), Some(s0)) = (&post, view.spot_notional, swaps.first()) {
                                 let closed = view.abs_size.saturating_sub(p.size.unsigned_abs());
                                 let realized = view.pnl_for(sn).mul(Big::u(closed)).div(Big::u(view.abs_size.max(1)));
+                                if pro_rata_remainder(&view, sn, s0.quote, &realized).is_neg() {
+                                    r.count("R4-reductions-with-negative-pro-rata-remainder");
+                                }
                                 if let Some((got, expect)) = book_value_identity(&view, p, s0.quote, &f, &m0, &realized) {
                                     if !got.within(expect.clone(), 2) {
                                         r.violation("C11", "R4-reduce-identity", format!("R4|reduce|{}", fz), format!("margin {} -> {}, open notional {} -> {}: book value {} expected {} (exchanged quote {} funding {})", view.pos.margin, p.margin, view.pos.notional, p.notional, got, expect, s0.quote, f), st.seq);
@@ -543,6 +558,9 @@ impl Monitor for C11 {
                             label = "partial_close".into();
                             if let (Some(p), Some(sn), Some(s0)) = (&post, view.spot_notional, swaps.first()) {
                                 let realized = view.pnl_for(sn).mul(Big::u(s0.base)).div(Big::u(view.abs_size.max(1)));
+                                if pro_rata_remainder(&view, sn, s0.quote, &realized).is_neg() {
+                                    r.count("R4-reductions-with-negative-pro-rata-remainder");
+                                }
                                 if let Some((got, expect)) = book_value_identity(&view, p, s0.quote, &f, &m0, &realized) {
                                     if !got.within(expect.clone(), 2) {
                                         r.violation("C11", "R4-partial-close-identity", format!("R4|partial_close|{}", fz), format!("margin {} -> {}, open notional {} -> {}: book value {} expected {} (exchanged quote {} funding {})", view.pos.margin, p.margin, view.pos.notional, p.notional, got, expect, s0.quote, f), st.seq);
